@@ -13,6 +13,7 @@ import BB.Proofs.Basic
 import BB.Proofs.G3Awg
 import BB.Model.Codec
 import BB.Proofs.G3Check
+import BB.Proofs.G3Cells
 
 namespace BB.C14
 open BB BB.Sequence
@@ -1193,5 +1194,36 @@ theorem getSlice_zero_step (pkg : AWGPkg) (a b : Option ℤ) : getSlice pkg a b 
 
 /-- `getSlice_out_of_range`: `pkg[0:5]` on a two-channel package reaches index 2 -/
 example : (2 : ℤ) ∈ pyRange 0 5 1 ∧ ((2 : ℤ) < 0 ∨ ((2 : ℕ) : ℤ) ≤ 2) := by decide
+
+/-- **the side condition `CellsOk` in terms of what was stored**: if every channel of every stored
+    element is a blueprint or a raw-array set given with 'm1' and 'm2' (`G3.entOkB`), the forged
+    elements of `_prepareForOutputting` hold waveform and both markers on every channel — delays and
+    filter compensation keep the kind of entry and the array names -/
+theorem cellsOk_of_elements (s : Sequence) (P : List (Dict Chan ChOutF)) (chans : List Chan)
+    (hP : s.prepareForOutputting = .ok P)
+    (hst : ∀ p e ch ent, Dict.get? s.data p = some (.el e) → Dict.get? e.chans ch = some ent → G3.entOkB ent = true) :
+    CellsOk P chans := by
+  intro el hel ch _ c hc
+  exact G3.prepare_cells_ok s P hP hst el hel ch c hc
+
+/-- `cellsOk_of_elements` applied to the two-position raw-array example -/
+example : CellsOk G3.Ex.P G3.Ex.chans :=
+  cellsOk_of_elements G3.Ex.seq G3.Ex.P G3.Ex.chans G3.Ex.seq_prepare (G3.storedOkB_spec _ (by decide +kernel))
+
+/-! ### model note: the empty waveform -/
+
+/-- one position, one channel (amplitude 2, offset 0), raw arrays of length 0 -/
+def emptySeq : Sequence :=
+  { data := [(1, .el { chans := [(.int 1, { data := .arr [("m1", []), ("m2", []), ("wfm", [])] (.num 10) })] })],
+    sequencing := [(1, ⟨0, 1, 0, 0, 0⟩)],
+    awgspecs := [("SR", .val (.num 10)), ("channel1_amplitude", .val (.num 2)), ("channel1_offset", .val (.num 0))] }
+
+/-- MODEL GAP (totalised `maxR [] = 0`): for an EMPTY raw waveform the model's `outputForAWGFile`
+    delivers a package, whereas the code raises ValueError (`wfm.max()` of a zero-size numpy array;
+    checked against broadbean: "zero-size array to reduction operation maximum which has no
+    identity").  This is why `range_check_iff`, `awg_accepts` and `awg_sequencing_error` carry the
+    guard `xs ≠ []`; `awg_delivered_in_unit` is vacuous (not wrong) for such a waveform. -/
+example : (emptySeq.outputForAWGFile.toOption.map (fun d => (d.pkg.isSome, d.thenErr, d.obligations.length))) =
+    some (true, none, 0) := by decide +kernel
 
 end BB.C14
